@@ -233,8 +233,12 @@ class DocGen:
                 return other.slice(a, b_)
             if r < 0.85:
                 return other.slice(a, b_, True)
-            frag = other.slice(a, b_).content
-            return Slice.max_open(frag) if rng.random() < 0.5 else Slice(frag, 0, 0)
+            sl = other.slice(a, b_)
+            # re-opened as far as possible (open nodes may be partial); closed only when the cut was already closed,
+            # so that the payload stays schema-valid
+            if sl.open_start == 0 and sl.open_end == 0 and rng.random() < 0.5:
+                return sl
+            return Slice.max_open(sl.content)
         except ValueError:
             return Slice.empty
 
